@@ -222,14 +222,70 @@ def run_c18(ctx, rng, job):
               # the rendering is what str()/repr() of the description and the verification error messages show
               ctx.ev()
               try:
-                  ok = expected_string(exp) in str(m) or expected_string(exp) in repr(m)
-                  str(m), repr(m)
+                  ok = expected_string(exp) in str(m) and expected_string(exp) in repr(m)
+                  if not ok:
+                      ctx.violation('signature-missing-from-str-or-repr', {'def': head, 'str': str(m)[:200], 'expected': expected_string(exp)},
+                                    abort=False)
               except Exception as e:
                   ctx.violation('rendering-description-raised', {'def': head, 'error': repr(e)}, abort=False)
           if ctx.case == 0 and len(ctx.samples) < 3 and g['kwonly'] and g['varargs']:
               ctx.sample({'def': head, 'info': {k: repr(v) for k, v in norm_info(m.getSignatureInfo()).items()},
                           'string': m.getSignatureString()})
     if ctx.case == 0:
+        # one description rendered by two threads at once (a default value whose repr is slow: both threads are inside
+        # getSignatureString() of the same object at the same time); and a default whose repr renders the description again
+        import threading
+
+        class SlowRepr:
+            def __init__(self):
+                self.inside = 0
+                self.go = threading.Event()
+                self.both = threading.Event()
+
+            def __repr__(self):
+                self.inside += 1
+                if self.inside >= 2:
+                    self.both.set()
+                self.go.wait(5)
+                return 'SLOW'
+        slow = SlowRepr()
+
+        def conc(a, b=slow):
+            pass
+        mc = fromFunction(conc)
+        out = {}
+
+        def render(k):
+            try:
+                out[k] = mc.getSignatureString()
+            except Exception as e:
+                out[k] = repr(e)
+        ts = [threading.Thread(target=render, args=(k,)) for k in (0, 1)]
+        for t in ts:
+            t.start()
+        slow.both.wait(5)
+        slow.go.set()
+        for t in ts:
+            t.join(10)
+        ctx.ev(2)
+        ctx.count('descriptions_rendered_by_two_threads_at_once', int(slow.both.is_set()))
+        for k in (0, 1):
+            if out.get(k) != '(a, b=SLOW)':
+                ctx.violation('concurrent-rendering', {'thread': k, 'got': out.get(k), 'expected': '(a, b=SLOW)'}, abort=False)
+
+        class Nosy:
+            def __repr__(self):
+                return 'N' + inner.getSignatureString()
+
+        def nosy(x, y=Nosy()):
+            pass
+
+        def plain(p, q=1):
+            pass
+        inner = fromFunction(plain)
+        ctx.ev()
+        if fromFunction(nosy).getSignatureString() != '(x, y=N(p, q=1))':
+            ctx.violation('nested-rendering', {'got': fromFunction(nosy).getSignatureString()}, abort=False)
         # the shipped ABC interfaces: required must be a prefix of positional, without self
         from zope.interface.common import collections as zc
         n = 0
